@@ -219,3 +219,47 @@ impl RelayLatencies {
         list.into_iter().min()
     }
 }
+
+/// Verification hooks (C27): crate-visible wrappers around the `pub(super)` items above.
+#[cfg(all(feature = "verif-hooks", not(wasm_browser)))]
+impl Report {
+    /// `kind`: 0 = HTTPS, 1 = QAD IPv4, 2 = QAD IPv6.
+    pub(crate) fn verif_update(
+        &mut self,
+        kind: u8,
+        relay: RelayUrl,
+        latency: Duration,
+        addr: SocketAddr,
+    ) {
+        use super::reportgen::{HttpsProbeReport, QadProbeReport};
+        let report = match kind {
+            0 => ProbeReport::Https(HttpsProbeReport { relay, latency }),
+            1 => ProbeReport::QadIpv4(QadProbeReport {
+                relay,
+                latency,
+                addr,
+            }),
+            _ => ProbeReport::QadIpv6(QadProbeReport {
+                relay,
+                latency,
+                addr,
+            }),
+        };
+        self.update(&report)
+    }
+}
+
+#[cfg(all(feature = "verif-hooks", not(wasm_browser)))]
+impl RelayLatencies {
+    pub(crate) fn verif_update_relay(&mut self, url: RelayUrl, latency: Duration, probe: Probe) {
+        self.update_relay(url, latency, probe)
+    }
+
+    pub(crate) fn verif_merge(&mut self, other: &RelayLatencies) {
+        self.merge(other)
+    }
+
+    pub(crate) fn verif_get(&self, url: &RelayUrl) -> Option<Duration> {
+        self.get(url)
+    }
+}
